@@ -30,7 +30,9 @@ LEAN_MODULES = ["PySMT.Props.C14"]
 RULE = ("history = 5..60 random API calls (construction, get_type, simplify, substitute with different maps, free "
         "variables / atoms / qf / types / theory, get_logic, size with all six measures, DAG and tree printing, HR "
         "serialisation, re-parsing, nnf / aig / prenex) over a seeded pool whose formulas share sub-DAGs with the probe, "
-        "then one probe call of any of these kinds; plus the listed adversarial orders; non-trivial = at least one "
+        "then one probe call of any of these kinds; plus the listed adversarial orders, constants with look-alike arguments "
+        "in bare environments, options changed in OTHER environments vs the defaults of a new one, declared sorts named "
+        "like built-in ones next to same-shaped types over the built-in ones; non-trivial = at least one "
         "history call walked a node of the probe's DAG with the walker the probe uses")
 ASSUMPTIONS = [
     "comparison with the twin is modulo the order of commutative arguments and the names of fresh symbols, as the "
@@ -870,6 +872,227 @@ def compare_theory_heap(ctx, req, impl, replay, ans):
                      dict(replay, req=req[:1500]))
 
 
+# ----------------------------------------------------------------------------------------------
+# round 5: constants in a BARE environment, process-wide defaults, confusable sorts
+# ----------------------------------------------------------------------------------------------
+import copy as _copy
+from fractions import Fraction as _PyFraction
+import pysmt.factory as _PF
+from pysmt.logics import QF_BV as _QF_BV, QF_UFLIRA as _QF_UFLIRA
+
+# the environments of make_env already hold Int(1), Real(2)...: a constructor argument that merely COMPARES equal to
+# an accepted one (True == 1, 1.0 == 1, Fraction(1) == 1) must be judged in an environment that has built nothing
+BARE_CONSTS = CONSTS + [("BV", (True, 8)), ("BV", (False, 8)), ("BV", (0, 8)), ("Int", _PyFraction(1)),
+                        ("Real", _PyFraction(2)), ("Real", _PyFraction(1, 2)), ("BV", (_PyFraction(1), 8)),
+                        ("BV", (1, 8.0)), ("BV", (1, True)), ("Int", 1), ("BV", (1, 1))]
+
+
+def bare_const(m, c):
+    ctor, val = c
+    k, v = P15.outcome(lambda: m.BV(val[0], val[1]) if ctor == "BV" else getattr(m, ctor)(val))
+    if k != "ok":
+        return (k, v)
+    pl = v._content.payload
+    return (k, W.result_key(v, ac=False), type(pl).__name__, repr(pl))
+
+
+def bare_const_cases(ctx):
+    for i, ci in enumerate(BARE_CONSTS):
+        for j, cj in enumerate(BARE_CONSTS):
+            if i == j or ci[0] != cj[0]:
+                continue
+            ma = Environment().formula_manager
+            bare_const(ma, ci)
+            got = bare_const(ma, cj)
+            ref = bare_const(Environment().formula_manager, cj)
+            ctx.case(("bare-const", i, j))
+            ctx.count("bare-const-cases")
+            if got != ref:
+                ctx.report_s({"oracle": "history-vs-twin", "probe": "const", "hist": "const", "tag": "bare-const"},
+                             "%s(%r) after %s(%r) in an environment that had built nothing else gives %s; as the first "
+                             "call of a new environment %s" % (cj[0], cj[1], ci[0], ci[1], got, ref),
+                             {"bare_const": [i, j]})
+
+
+PREF_REF = _copy.deepcopy(_PF.DEFAULT_PREFERENCES)
+_GENERIC = [0]
+
+
+def _add_generic(e):
+    _GENERIC[0] += 1
+    e.factory.add_generic_solver("h14_%d" % _GENERIC[0], ["/bin/true"], [_QF_UFLIRA], unsat_core_support=True)
+
+
+PREF_OPS = [
+    ("set_solver_preference_list", lambda e: e.factory.set_solver_preference_list(["bdd", "z3"])),
+    ("set_qelim_preference_list", lambda e: e.factory.set_qelim_preference_list(["selfsub", "shannon"])),
+    ("set_interpolation_preference_list", lambda e: e.factory.set_interpolation_preference_list(["z3"])),
+    ("set_optimizer_preference_list", lambda e: e.factory.set_optimizer_preference_list(["z3_sua"])),
+    ("set_preference_list(unsat cores)",
+     lambda e: e.factory.set_preference_list("Solver supporting Unsat Cores", ["z3"])),
+    ("add_generic_solver", _add_generic),
+    ("default_logic=", lambda e: setattr(e.factory, "default_logic", _QF_BV)),
+    ("default_qe_logic=", lambda e: setattr(e.factory, "default_qe_logic", _QF_BV)),
+    ("enable_infix_notation=", lambda e: setattr(e, "enable_infix_notation", True)),
+    ("enable_div_by_0=", lambda e: setattr(e, "enable_div_by_0", False)),
+    ("allow_empty_var_names=", lambda e: setattr(e, "allow_empty_var_names", True)),
+    ("add_dynamic_walker_function",
+     lambda e: e.add_dynamic_walker_function(op.new_node_type(), type(e.simplifier), lambda *a, **k: None)),
+]
+
+
+def defaults_of(env):
+    """what a NEW environment starts with (all of it is reachable through the public API)"""
+    f = env.factory
+    out = {"preferences": _copy.deepcopy(f.preferences),
+           "module DEFAULT_PREFERENCES": _copy.deepcopy(_PF.DEFAULT_PREFERENCES),
+           "default_logic": str(f.default_logic), "default_qe_logic": str(f.default_qe_logic),
+           "all_solvers": sorted(f.all_solvers()), "all_qelims": sorted(f.all_quantifier_eliminators()),
+           "enable_infix_notation": env.enable_infix_notation, "enable_div_by_0": env.enable_div_by_0,
+           "allow_empty_var_names": env.allow_empty_var_names, "dwf": sorted(map(str, env.dwf)),
+           "qelim_class": P15.outcome(lambda: type(f.QuantifierEliminator()).__name__)}
+    return out
+
+
+DEFAULTS_REF = {}
+
+
+def preference_cases(ctx, rng, rounds):
+    """OTHER environments change their own preference lists / options; a new Environment must start with the defaults
+    the process started with (recorded before any change: PREF_REF at import, the rest by the first call here)"""
+    if not DEFAULTS_REF:
+        DEFAULTS_REF.update(defaults_of(Environment()))
+        if DEFAULTS_REF["preferences"] != PREF_REF:
+            ctx.report_s({"oracle": "process-defaults", "probe": "preferences", "hist": "import"},
+                         "the preferences of the first Environment differ from DEFAULT_PREFERENCES at import",
+                         {"prefs": []})
+    hists = [[i] for i in range(len(PREF_OPS))]
+    for _ in range(rounds):
+        hists.append([rng.randrange(len(PREF_OPS)) for _ in range(rng.randint(2, 4))])
+    for hist in hists:
+        others = [Environment() for _ in range(1 + len(hist) % 2)]
+        for k, oi in enumerate(hist):
+            P15.outcome(lambda: PREF_OPS[oi][1](others[k % len(others)]))
+        got = defaults_of(Environment())
+        names = [PREF_OPS[oi][0] for oi in hist]
+        ctx.case(("prefs", tuple(hist)))
+        ctx.count("process-default-cases")
+        for field, ref in DEFAULTS_REF.items():
+            if got[field] != ref:
+                ctx.report_s({"oracle": "process-defaults", "probe": field, "hist": names[0] if len(names) == 1 else "mixed"},
+                             "after OTHER environments called %s, a new Environment starts with %s = %s; the process "
+                             "started with %s" % (names, field, str(got[field])[:160], str(ref)[:160]),
+                             {"prefs": hist, "field": field})
+                # restore, so that one defect is reported once per history and not by every later case
+                for key, val in PREF_REF.items():
+                    _PF.DEFAULT_PREFERENCES[key] = list(val)
+                break
+
+
+def type_key(ty):
+    if ty.is_function_type():
+        return ("fun", type_key(ty.return_type), tuple(type_key(p) for p in ty.param_types))
+    if ty.is_array_type():
+        return ("arr", type_key(ty.index_type), type_key(ty.elem_type))
+    if ty.is_bv_type():
+        return ("bv", ty.width)
+    return (type(ty).__name__, ty.basename, bool(getattr(ty, "custom_type", False)),
+            tuple(type_key(a) for a in (ty.args or ())))
+
+
+SORT_NAMES = ["Int", "Real", "Bool", "String", "S"]
+BUILTIN = {"Int": types.INT, "Real": types.REAL, "Bool": types.BOOL, "String": types.STRING}
+SORT_SHAPES = ["plain", "fun1", "fun2", "arr", "fun_arr", "arr_arr"]
+
+
+def sort_build(env, nm, declared, shape, prefix):
+    """declares symbols of the given shape over the sort `nm` (built-in or DECLARED with the same name) and returns
+    a formula using them"""
+    tm, m = env.type_manager, env.formula_manager
+    X = tm.Type(nm) if declared else BUILTIN[nm]
+    a = m.Symbol(prefix + "a", X)
+    if shape == "plain":
+        t = a
+    elif shape == "fun1":
+        t = m.Function(m.Symbol(prefix + "f", tm.FunctionType(X, [X])), [a])
+    elif shape == "fun2":
+        t = m.Function(m.Symbol(prefix + "g", tm.FunctionType(X, [X, X])), [a, a])
+    elif shape == "arr":
+        t = m.Select(m.Symbol(prefix + "q", tm.ArrayType(X, X)), a)
+    elif shape == "fun_arr":
+        t = m.Function(m.Symbol(prefix + "h", tm.FunctionType(X, [tm.ArrayType(X, X)])),
+                       [m.Symbol(prefix + "q", tm.ArrayType(X, X))])
+    else:
+        t = m.Select(m.Select(m.Symbol(prefix + "qq", tm.ArrayType(X, tm.ArrayType(X, X))), a), a)
+    return m.EqualsOrIff(t, a)
+
+
+def sort_probe(env, nm, declared, shape):
+    def go():
+        f = sort_build(env, nm, declared, shape, "p_")
+        buf = io.StringIO()
+        smtlibscript_from_formula(f).serialize(buf, daggify=False)
+        syms = sorted(env.fvo.get_free_variables(f), key=lambda s_: s_.symbol_name())
+        return {"formula": W.result_key(f, ac=False),
+                "symbol types": [(s_.symbol_name(), type_key(s_.symbol_type())) for s_ in syms],
+                "get_type": type_key(env.stc.get_type(f.arg(0))),
+                "custom types": sorted(repr(type_key(t)) for t in env.typeso.get_types(f, custom_only=True)),
+                "all types": sorted(repr(type_key(t)) for t in env.typeso.get_types(f)),
+                "logic": str(get_logic(f)),
+                # the declarations come out in the iteration order of a set of nodes: compared as a multiset of lines
+                "script lines": sorted(buf.getvalue().splitlines())}
+    return P15.outcome(go)
+
+
+def sort_case(hist, probe):
+    env = Environment()
+    push_env(env)
+    try:
+        for k, (nm, declared, shape) in enumerate(hist):
+            P15.outcome(lambda: sort_build(env, nm, declared, shape, "h%d_" % k))
+        return sort_probe(env, *probe)
+    finally:
+        pop_env()
+
+
+def sort_cases(ctx, rng, rounds):
+    """a sort DECLARED with the name of a built-in one, and the same-shaped types over the built-in one built earlier
+    in the same environment (and the other way round) -- against the probe alone in a new environment"""
+    cases = []
+    for nm in SORT_NAMES[:4]:
+        for shape in SORT_SHAPES:
+            for declared in (True, False):
+                cases.append(([(nm, not declared, shape)], (nm, declared, shape)))
+    for _ in range(rounds):
+        nm = rng.choice(SORT_NAMES)
+        variant = lambda name: True if name not in BUILTIN else rng.random() < 0.5
+        hist = []
+        for _k in range(rng.randint(1, 4)):
+            hn = nm if rng.random() < 0.7 else rng.choice(SORT_NAMES)
+            hist.append((hn, variant(hn), rng.choice(SORT_SHAPES)))
+        cases.append((hist, (nm, variant(nm), rng.choice(SORT_SHAPES))))
+    for hist, probe in cases:
+        got = sort_case(hist, probe)
+        ref = sort_case([], probe)
+        ctx.case(("sorts", tuple(hist), probe))
+        ctx.count("confusable-sort-cases")
+        replay = {"sorts": True, "hist": [list(h) for h in hist], "probe": list(probe)}
+        if got[0] != ref[0]:
+            ctx.report_s({"oracle": "history-vs-twin", "probe": "sorts", "hist": "sorts", "tag": "confusable-sorts"},
+                         "symbols over the %s sort %s (%s) after %s: %s; alone in a new environment: %s" % (
+                             "declared" if probe[1] else "built-in", probe[0], probe[2], hist, got[:2], ref[:2]), replay)
+        elif got[0] == "ok":
+            for field in ref[1]:
+                if got[1][field] != ref[1][field]:
+                    ctx.report_s({"oracle": "history-vs-twin", "probe": "sorts:" + field, "hist": "sorts",
+                                  "tag": "confusable-sorts"},
+                                 "symbols over the %s sort %s (%s) after the history %s: %s = %s; alone in a new "
+                                 "environment %s" % ("declared" if probe[1] else "built-in", probe[0], probe[2], hist,
+                                                     field, str(got[1][field])[:200], str(ref[1][field])[:200]), replay)
+                    break
+
+
+
 def run(ctx):
     sys.setrecursionlimit(1000)
     rng = ctx.rng
@@ -890,6 +1113,9 @@ def run(ctx):
     reference_blueprint()
     symbol_cases(ctx, rng, 150 if quick else 3000)
     other_environment_cases(ctx, rng, 12 if quick else 200)
+    bare_const_cases(ctx)
+    preference_cases(ctx, rng, 6 if quick else 100)
+    sort_cases(ctx, rng, 40 if quick else 1500)
     # 1b. fresh symbols next to user symbols named like fresh templates
     fresh_symbol_cases(ctx, rng, quick)
     # 2. random histories
@@ -952,6 +1178,15 @@ def replay(ctx, rep):
         reference_blueprint()
         symbol_cases(ctx, ctx.rng, 300)
         other_environment_cases(ctx, ctx.rng, 30)
+        return
+    if "bare_const" in r:
+        bare_const_cases(ctx)
+        return
+    if "prefs" in r:
+        preference_cases(ctx, ctx.rng, 20)
+        return
+    if r.get("sorts"):
+        sort_cases(ctx, ctx.rng, 200)
         return
     if r.get("fresh"):
         users = FRESH_USERS[r["users"]]
